@@ -956,12 +956,14 @@ def plan(tier):
     P = [
         # parsed single documents: every tag, every node kind (the tree a Builder stage holds)
         ("parsed", "C19_Parsed", "WholeRange", "parse", (1, 1), dict(protos=("pickle", "deepcopy")), False, 16 if q else 2),
-        # small parsed set x three protocols x mutations of either side x list edits x both safe flags
-        ("parsed-mut", "C19_ParsedS", "WholeRange", "parse", (1, 1), dict(protos=("pickle", "deepcopy", "copy"), maxmut=1, safes="{TRUE, FALSE}"), True, 4),
+        # small parsed set: three protocols, both safe flags
+        ("parsed-small", "C19_ParsedS", "WholeRange", "parse", (1, 1), dict(protos=("pickle", "deepcopy", "copy"), safes="{TRUE, FALSE}"), False, 4),
+        # ... x every mutation of either side (action property Isolated)
+        ("parsed-mut", "C19_ParsedS", "WholeRange", "parse", (1, 1), dict(protos=("pickle", "deepcopy"), maxmut=1, ctx=False), True, 0),
         ("lists-edit", "C19_Lists", "WholeRange", "fold", (1, 1), dict(protos=("pickle", "deepcopy"), maxedits=1 if q else 2, maxmut=0), False, 1),
         ("keys", "C19_Keys", "WholeRange", "parse", (1, 1), dict(protos=("pickle", "deepcopy")), False, 1),
         # merged trees
-        ("hist", "C19_Hist", "C19_HistRange", "fold", (2, 2), dict(protos=("pickle", "deepcopy")), False, 24 if q else 3),
+        ("hist", "C19_HistQ" if q else "C19_Hist", "C19_HistRangeQ" if q else "C19_HistRange", "fold", (2, 2), dict(protos=("pickle", "deepcopy")), False, 24 if q else 3),
         ("c03-md", "C03_DocsMd", "WholeRange", "fold", (2, 2), dict(protos=("pickle", "deepcopy")), False, 8 if q else 1),
         ("c08-del", "C08_DocsD", "C08_RangeD", "fold", (2, 2), dict(protos=("pickle", "deepcopy")), False, 16 if q else 2),
         ("c04-lists", "C04_DocsL", "C04_RangeL", "fold", (2, 2) if q else (2, 3), dict(protos=("pickle", "deepcopy")), False, 8 if q else 2),
@@ -971,13 +973,13 @@ def plan(tier):
               ("c03-3", "C03_Docs3", "WholeRange", "fold", (3, 3), dict(protos=("pickle", "deepcopy")), False, 8),
               ("c08", "C08_Docs", "C08_Range", "fold", (2, 2), dict(protos=("pickle", "deepcopy")), False, 8),
               ("c04", "C04_Docs", "C04_Range", "fold", (2, 2), dict(protos=("pickle", "deepcopy")), False, 16),
-              ("hist-mut", "C19_Hist", "C19_HistRange", "fold", (2, 2), dict(protos=("deepcopy",), maxmut=1, ctx=False), True, 0)]
+              ("hist-mut", "C19_HistQ", "C19_HistRangeQ", "fold", (2, 2), dict(protos=("deepcopy",), maxmut=1, ctx=False), True, 0)]
     return P
 
 
 MUTATIONS = [
     # (name, universe, range, mode, stages, switches on, Mutation, consts, expected to break)
-    ("AttachRederivesFlags", "C19_Hist", "C19_HistRange", "fold", (2, 2), ["AttachRederivesFlags"], None, dict(), ["Inv_Faithful", "Inv_Behaves"]),
+    ("AttachRederivesFlags", "C19_HistQ", "C19_HistRangeQ", "fold", (2, 2), ["AttachRederivesFlags"], None, dict(), ["Inv_Faithful", "Inv_Behaves"]),
     ("UnderscoreBypass", "C19_Keys", "WholeRange", "parse", (1, 1), ["UnderscoreBypass"], None, dict(), ["Inv_Faithful", "Inv_CopyConsistent"]),
     ("ShadowKeyRaises", "C19_Keys", "WholeRange", "parse", (1, 1), ["ShadowKeyRaises"], None, dict(), ["Inv_Completes"]),
     ("ShallowChildren", "C19_ParsedS", "WholeRange", "parse", (1, 1), [], "ShallowChildren", dict(maxmut=1), ["Inv_Disjoint", "Prop_Isolated"]),
@@ -1009,7 +1011,7 @@ def run(prop, tier, seed, replay, keep):
 
     # ---- universes (cached by the hash of the modules they are defined in)
     PL = plan(tier)
-    need = {(d, r) for _, d, r, *_ in PL} | {(u, r) for _, u, r, *_ in MUTATIONS} | {("C19_CtxSD", "WholeRange")}
+    need = {(d, r) for _, d, r, *_ in PL} | {(u, r) for _, u, r, *_ in MUTATIONS} | {("C19_CtxSD", "WholeRange"), ("C19_HistQ", "C19_HistRangeQ")}
     with ThreadPoolExecutor(4) as ex:
         unis = dict(zip(sorted(need), ex.map(lambda a: gen_universe(*a), sorted(need))))
     ctxs = unis[("C19_CtxSD", "WholeRange")][1]["docs"]
@@ -1030,7 +1032,7 @@ def run(prop, tier, seed, replay, keep):
         for name, docs, rng, mode, (smin, smax), sw, mu, kw, expect in MUTATIONS:
             c = _consts(sw, mode=mode, smin=smin, smax=smax, mutation=mu, **kw)
             jobs.append(("mutation/" + name, unis[(docs, rng)][0], mc_cfg(c, [e for e in expect if e.startswith("Inv_")] or INVS, False, "Prop_Isolated" in expect), 3))
-        jobs.append(("witness", unis[("C19_Hist", "C19_HistRange")][0],
+        jobs.append(("witness", unis[("C19_HistQ", "C19_HistRangeQ")][0],
                      mc_cfg(_consts([], mode="fold", smin=2, smax=2, protos=("deepcopy",), ctx=False), ["Inv_NoWitness"], False, False), 3))
         byname, asyncs = {}, {}
         with ThreadPoolExecutor(max_workers=4 if quick else 3) as ex:
@@ -1049,8 +1051,9 @@ def run(prop, tier, seed, replay, keep):
                     lines = [v for v in tlc.json_prints(r["out"]) if "od" in v]
                     r["out"] = r["out"][-2000:]
                     bn = ent[7]
-                    args = [(ent[1], ent[3], ln, bool(bn) and (ln.get("mm") or (sum(ln["h"]) + i) % bn == 0) and ln["p"] != "copy", 6 if (ln.get("mm") or not quick) else 2)
-                            for i, ln in enumerate(lines)]
+                    lines.sort(key=lambda ln: json.dumps([ln["h"], ln["s"], ln["p"], ln["e"], ln["m"]], sort_keys=True))   # TLC's print order is not deterministic
+                    args = [(ent[1], ent[3], ln, bool(bn) and bool(ln.get("mm") or (sum(ln["h"]) * 7 + len(ln["p"])) % bn == 0) and ln["p"] != "copy",
+                             6 if (ln.get("mm") or not quick) else 2) for ln in lines]
                     asyncs[nm] = (lines, pool.map_async(replay_line, args, chunksize=max(1, len(args) // 256)))
         t_tlc = time.time() - t0
 
